@@ -56,11 +56,109 @@ PROPERTIES = {
     },
 }
 
+
+
+def ss(mode, subjects, classes, name, extra=None, tiers=("quick", "thorough"), profile="release", q=None, t=None):
+    """q / t: extra args for the quick / thorough tier only."""
+    job = {
+        "name": name,
+        "build": B("ss", profile),
+        "args": [mode, "--tier", "{tier}"] + (["--subjects", subjects] if subjects else []) + (extra or []),
+        "classes": classes,
+        "tiers": tiers,
+    }
+    if q is not None or t is not None:
+        job["tier_args"] = {"quick": q or [], "thorough": t or []}
+    return job
+
+
+FWD = "memmem,finder,finder-nopre,iter-first,finder-owned,finder-asref"
+REV = "rmemmem,rfinder,riter-first,rfinder-owned"
+BLOCKS = "twoway,rk,shiftor,pp-sse2,pp-avx2,pp-vn2,pp-vn4,pp-vn8,rtwoway,rrk"
+PF = "pf-sse2,pf-avx2,pf-portable,pf-vn2,pf-vn4,pf-vn8"
+PPS = "pp-sse2,pp-avx2,pp-vn8,pp-vn16"
+PFS = "pf-sse2,pf-avx2,pf-portable,pf-vn8,pf-vn16"
+
+
+def e_spaces(subjects, classes, tag, places=None):
+    pl = ["--places", places] if places else []
+    return [
+        ss("e", subjects, classes, "ss/E2/" + tag, ["--letters", "ab"] + pl, q=["--nmax", "7", "--hmax", "15"], t=["--nmax", "8", "--hmax", "17"]),
+        ss("e", subjects, classes, "ss/E3/" + tag, ["--letters", "abc"] + pl, q=["--nmax", "4", "--hmax", "10"], t=["--nmax", "5", "--hmax", "11"]),
+        ss("e", subjects, classes, "ss/C64/" + tag, ["--letters", "c64"] + pl, q=["--nmax", "4", "--hmax", "9"], t=["--nmax", "5", "--hmax", "10"]),
+        ss("e", subjects, classes, "ss/RK/" + tag, ["--letters", "rk"] + pl, q=["--nmax", "4", "--hmax", "9"], t=["--nmax", "5", "--hmax", "10"]),
+    ]
+
+
+ASSUME_SUB = [
+    "reference model: windows().position / rposition with the empty-needle conventions (mcore::oracle)",
+    "host CPU has SSE2 and AVX2, so Finder takes the AVX2 packed-pair / Two-Way+AVX2-prefilter strategies in this configuration (other dispatcher outcomes: C09)",
+    "the scaled-down vector VN<N> (hook H1) implements the Vector trait faithfully",
+]
+
+PROPERTIES.update({
+    "C03": {
+        "rule": "a shape is (needle, haystack, placement); enumerated spaces: E2/E3 (all needles x all haystacks over 2/3 letters), C64 (bytes equal mod 64), RK (bytes 0,1,2: Rabin-Karp hash collisions), E2pad (cores x pad grid: both sides of the vector minimum), LN (long structured needles x every concatenation of their own factors x pad grid)",
+        "explanation": "Bounded-exhaustive exploration of memmem::find, Finder::find (auto and no prefilter), find_iter().next(), the owned and as_ref forms, against the naive leftmost-occurrence model, over spaces that reach every strategy of the meta searcher (the per-strategy execution histogram is in the evidence).",
+        "assumptions": ASSUME_SUB,
+        "jobs": e_spaces(FWD, RESULT, "fwd") + [
+            ss("epad", FWD, RESULT, "ss/E2pad/fwd", q=["--nmax", "3", "--hmax", "9"], t=["--nmax", "4", "--hmax", "12"]),
+            ss("ln", FWD, RESULT, "ss/LN/fwd"),
+        ],
+    },
+    "C04": {
+        "rule": "as C03, reverse subjects",
+        "explanation": "Same spaces as C03 through memmem::rfind, FinderRev::rfind, rfind_iter().next() and the owned form, against the naive rightmost-occurrence model (empty needle -> haystack.len()). The LN family contains every needle reversed-periodic shape (u^k, c u^k, u^k c, reversed Fibonacci).",
+        "assumptions": ASSUME_SUB,
+        "jobs": e_spaces(REV, RESULT, "rev") + [
+            ss("epad", REV, RESULT, "ss/E2pad/rev", q=["--nmax", "3", "--hmax", "9"], t=["--nmax", "4", "--hmax", "12"]),
+            ss("ln", REV, RESULT, "ss/LN/rev"),
+        ],
+    },
+    "C11": {
+        "rule": "a shape is (needle, index pair, haystack, placement)",
+        "explanation": "Every public packed-pair prefilter (SSE2, AVX2, portable, and the generic code at VN<2,4,8,16>) over (a) all needles over a small alphabet x ALL valid index pairs x all binary haystacks of every length from min_haystack_len up, (b) long needles x far-apart/reversed pairs x pad grids with planted partial pair hits and false candidates, (c) the E-spaces with the default pair, (d) the private short-haystack fallback through Finder::find on LN. Oracle: candidate <= first occurrence, None only if no occurrence, pair bytes present at the candidate.",
+        "assumptions": ASSUME_SUB,
+        "jobs": [
+            ss("pp-pairs", None, RESULT, "ss/pp-pairs"),
+            ss("pp-real", PFS, RESULT, "ss/pp-real/prefilter"),
+        ] + e_spaces(PF, RESULT, "prefilter")[:2] + [
+            ss("epad", PF, RESULT, "ss/E2pad/prefilter", q=["--nmax", "3", "--hmax", "9"], t=["--nmax", "4", "--hmax", "12"]),
+            ss("ln", PF + ",finder", RESULT, "ss/LN/prefilter+fallback"),
+        ],
+    },
+    "C12": {
+        "rule": "a shape is (needle, [index pair,] haystack, placement)",
+        "explanation": "Each public building block (Two-Way fwd/rev, Rabin-Karp fwd/rev, Shift-Or, SSE2/AVX2/VN packed-pair find) against the naive model over E2/E3/C64/RK/LN and the pair spaces; constructors must return None exactly outside their domain (Shift-Or > 15 bytes, packed pair < 2 bytes).",
+        "assumptions": ASSUME_SUB,
+        "jobs": e_spaces(BLOCKS, RESULT, "blocks") + [
+            ss("ln", BLOCKS, RESULT, "ss/LN/blocks"),
+            ss("pp-pairs", None, RESULT, "ss/pp-pairs"),
+            ss("pp-real", PPS, RESULT, "ss/pp-real/find"),
+            ss("epad", "pp-sse2,pp-avx2,twoway,rk,rtwoway,rrk", RESULT, "ss/E2pad/blocks", q=["--nmax", "3", "--hmax", "9"], t=["--nmax", "4", "--hmax", "12"]),
+        ],
+    },
+    "C18": {
+        "rule": "a shape is (x, y, alignment of x, alignment of y, placement)",
+        "explanation": "is_equal / is_prefix / is_suffix / is_equal_raw against ==, starts_with, ends_with: all pairs over {a,b} up to 7 (8) bytes; for every length 0..=64 (80) equal content and every single-byte difference at every position with three deltas, at all 8x8 relative alignments, and with both operands flush against PROT_NONE pages; unequal lengths.",
+        "assumptions": ["reference model: slice ==, starts_with, ends_with", "an over-read next to a guard page kills the engine process, which the driver reports as a violation"],
+        "jobs": [ss("equal", None, RESULT + ["crash"], "ss/equal")],
+    },
+    "C19": {
+        "rule": "a case is (needle, ranker behaviour) or (needle length, index1, index2)",
+        "explanation": "Pair::new / with_ranker for every needle over <=3 letters up to length 8 (10) under EVERY weak order of the letters' ranks (pair selection only compares ranks, so this exhausts ranker behaviours on those needles), for structured needles of length 2..600 under 11 named rankers (constant, identity, reversed, adversarial, permutations); Pair::with_indices for every (i1,i2) in 0..=255 squared on 10 needle lengths; every finder built from an accepted pair must echo it and report min_haystack_len = max(len, max index + V).",
+        "assumptions": ["the stated contract (None iff len < 2; distinct offsets inside the needle and <= 254)"],
+        "jobs": [ss("pairs", None, RESULT, "ss/pairs")],
+    },
+})
+
 HOOK_COMMITS = ["ffdf165", "556bbde"]
 
 ENGINES = [
-    {"name": "bs", "path": "/verif/harness/checks/src/bin/bs.rs", "serves_properties": ["C01", "C02"],
+    {"name": "bs", "path": "/verif/harness/checks/src/bin/bs.rs", "serves_properties": ["C01", "C02", "C05", "C07", "C14"],
      "kind_free_text": "shape-space exploration of byte search: all role strings x all start offsets x subjects {VN<2..32>, SWAR, SSE2, AVX2, top-level}, naive reference model, checked-load monitor"},
+    {"name": "ss", "path": "/verif/harness/checks/src/bin/ss/", "serves_properties": ["C03", "C04", "C05", "C10", "C11", "C12", "C14", "C17", "C18", "C19"],
+     "kind_free_text": "shape-space exploration of substring search and its building blocks: enumerated needle x haystack spaces, naive reference model, allocation probe, guard-page placement"},
 ]
 
 NOT_CLAIMED = {}
